@@ -89,3 +89,45 @@ Definition fsessions_case (deps : list (list nat)) (canon : list nat) (ncalls : 
            (sess : list (list op * list fpick)) : string :=
   let c := mkFC (fun i => nth (i - 1) deps []) (fun i => nth (i - 1) canon i) in
   join ";" (fsessions c ncalls sess []).
+
+(* ---- statements of Model/FileSpec.v evaluated along a replayed run ---- *)
+From EL Require Import Model.FileSpec.
+
+Definition fcheck_state (c : fcfg) (nc : bool) (s : fstateX) : string :=
+  (if mem_key_ok c s then "" else "memkey ") ++
+  (if nc then (if procs_ok s then "" else "procs ") ++ (if prep_ok s then "" else "prep ") ++
+              (if loop_alive s then "" else "loopdead ") ++ (if body_inputs_ok s then "" else "body ")
+   else "").
+
+Fixpoint fcheck (c : fcfg) (nc : bool) (picks : list fpick) (s : fstateX) (n : nat) : string * fstateX :=
+  match fcheck_state c nc s with
+  | EmptyString =>
+      match picks with
+      | [] => ("ok", s)
+      | PCrash k :: rest => fcheck c nc rest (kill_proc s k) (S n)
+      | PK t :: rest =>
+          match fstep c s t with
+          | Some (s', _) =>
+              if nc && negb (outs_kept (fsy s) (fsy s')) then ("step " ++ sn n ++ ": completed entry altered", s)
+              else fcheck c nc rest s' (S n)
+          | None => ("stuck", s)
+          end
+      end
+  | bad => ("step " ++ sn n ++ ": " ++ bad, s)
+  end.
+
+Fixpoint fcheck_sessions (c : fcfg) (ncalls : nat) (sess : list (list op * list fpick)) (fs : fsys) : string :=
+  match sess with
+  | [] => "ok"
+  | (prog, picks) :: rest =>
+      let '(r, sf) := fcheck c (nocancel prog) picks (finit ncalls prog fs) 0 in
+      match r with
+      | "ok" => fcheck_sessions c ncalls rest (fsy sf)
+      | _ => r
+      end
+  end.
+
+Definition fcheck_case (deps : list (list nat)) (canon : list nat) (ncalls : nat)
+           (sess : list (list op * list fpick)) : string :=
+  let c := mkFC (fun i => nth (i - 1) deps []) (fun i => nth (i - 1) canon i) in
+  fcheck_sessions c ncalls sess [].
